@@ -567,6 +567,15 @@ def suite_C12():
                           ('2.0', '2', 'hit'), ('"ab"', '"ab"', 'hit'), ('[1, 2, 3]', 'a, ...b', 'hit'), ('[1, 2]', 'a, b, c', 'other'), ('5', 'x: str', 'other')]:
         cases.append(('p%d' % k, 'switch (%s) case %s -> "hit" case _ -> "other"' % (val, pat), exp, dict(value=val, pattern=pat, what='switch runs the first matching arm')))
         k += 1
+    # sequence patterns: equal length except around one splat; too few values raise
+    for pat, names, val, exp in [('a, ...b, c', '[a, b, c]', '[1, 2]', '[1, [], 2]'), ('a, ...b, c', '[a, b, c]', '[1, 2, 3, 4]', '[1, [2, 3], 4]'),
+                                 ('a, ...b, c', '[a, b, c]', '[1]', 'ERR'), ('a, ...b, c', '[a, b, c]', '[]', 'ERR'), ('a, ...b', '[a, b]', '[]', 'ERR'),
+                                 ('a, ...b', '[a, b]', '[1]', '[1, []]'), ('...b, c, d', '[b, c, d]', '[1]', 'ERR'), ('...b, c, d', '[b, c, d]', '[1, 2]', '[[], 1, 2]'),
+                                 ('...b, c, d', '[b, c, d]', '[1, 2, 3]', '[[1], 2, 3]'), ('a, b, ...c', '[a, b, c]', '[1, 2, 3, 4]', '[1, 2, [3, 4]]'),
+                                 ('a, b, ...c', '[a, b, c]', '[1]', 'ERR'), ('a, b', '[a, b]', '[1, 2, 3]', 'ERR'), ('a, b', '[a, b]', '[1]', 'ERR'),
+                                 ('a, b', '[a, b]', '"xy"', '["x", "y"]'), ('a, ...b, c', '[a, b, c]', '1 til 6', '[1, [2, 3, 4], 5]')]:
+        cases.append(('sp%d' % k, '(\\ -> (%s := %s; %s))()' % (pat, val, names), exp, dict(pattern=pat, value=val, what='sequence pattern with a splat')))
+        k += 1
     for decl, stmt in [('x: stream = 1 til 4', 'x[0] = 7'), ('x: stream = 1 til 4', 'x[1] += 5')]:
         cases.append(('g%d' % k, '(\\ -> (%s; %s; "completed"))()' % (decl, stmt), 'ERR', dict(declaration=decl, statement=stmt, what='annotation must be enforced')))
         k += 1
@@ -1080,6 +1089,20 @@ def suite_C14():
               '(0-9223372036854775808) % (0-1)', '(0-9223372036854775808) %% (0-1)', '(0-9223372036854775808) /! (0-1)', '9223372036854775807 + 1', '(0-9223372036854775808) - 1',
               '3037000500 * 3037000500', '0 - (0-9223372036854775808)', 'str_radix(5, 1)', 'str_radix(5, 37)', 'int_radix("zz", 36)', 'F"{(0-9223372036854775808) #x}"']:
         cases.append(('m%d' % k, x, None, dict(expr=x)))
+        k += 1
+    # destructuring: every pattern shape against too few / exactly enough / more values must bind or raise, never abort
+    for pat, val in itertools.product(['a, ...b, c', 'a, ...b', '...b, c, d', 'a, b, ...c', 'a, b', 'a, ...b, c, d, e', '[a, ...b], c'],
+                                      ['[]', '[1]', '[1, 2]', '[1, 2, 3, 4]', '"xy"', '1 til 3', '[[], 1]', 'null', '5']):
+        cases.append(('d%d' % k, '(\\ -> (%s := %s; "bound"))()' % (pat, val), None, dict(pattern=pat, value=val, what='destructuring')))
+        k += 1
+    for x in ['eval("\\"\\\\u{ffffffffff}\\"")', 'eval("\\"\\\\u{110000}\\"")', 'eval("\\"\\\\u{d800}\\"")', 'eval("\\"\\\\xzz\\"")',
+              '(\\ -> (xs := [1, 2, 3, 4]; xs[1:3] = 9; xs))()', '(\\ -> (xs := [1, 2, 3, 4]; every xs[1:3] = 9; xs))()', '(\\ -> (s := "abcd"; s[1:3] = "x"; s))()',
+              'len("\\u{d7ff}" to "\\u{e001}")', 'len("\\u{d7ff}" til "\\u{e001}")', 'len("a" to "\\u{10ffff}")', '(1 to 80) map (\\i -> choose("h\u00e9llo w\u00f6rld"))',
+              '(1 to 40) map (\\i -> choose("\u00e9"))', 'choose("")', 'choose([])', 'choose({})']:
+        cases.append(('v%d' % k, x, None, dict(expr=x)))
+        k += 1
+    for x in ['rational("-.")', 'rational("--1.5")', 'rational("1e99999999999")', 'rational("1/0")', 'rational("")', 'list((1 til 4) drop (<9))', '(1 til 4) drop (\\x -> 1/0)']:
+        cases.append(('n%d' % k, x, None, dict(expr=x)))
         k += 1
     return '', cases
 
